@@ -111,7 +111,9 @@ ParseFrom(p, i) ==
                        b   == BrScan(p, j0, TRUE, {}, {}, {}, "ok")
                    IN IF b.term
                       THEN PCons(b.st, SetOf(neg, b.mem, b.rng, b.cls), ParseFrom(p, b.end + 1))
-                      ELSE PCons("either", Chr("["), ParseFrom(p, i + 1))
+                      \* not terminated; if a class symbol follows, ITS text holds a "]" that ends the bracket in the real
+                      \* pattern: the symbol abstraction does not apply (unspec)
+                      ELSE PCons(IF \E k \in j0..Len(p) : p[k] \in ClassSyms THEN "unspec" ELSE "either", Chr("["), ParseFrom(p, i + 1))
               [] OTHER -> PCons("ok", Chr(c), ParseFrom(p, i + 1))
 
 Parse(p) == ParseFrom(p, 1)
